@@ -249,11 +249,11 @@ func (fv *FuncVerifier) evalCall(call *ast.CallExpr, st *State, stmt bool) []Ter
 // for the duration of the verified call (listed with the assumptions).
 func (fv *FuncVerifier) funcValueView(o *types.Var, call *ast.CallExpr, res []Term, st *State) {
 	pv, ok := fv.spec.Pragmas["func_value_view"]
-	if !ok || !o.IsField() || len(call.Args) != 0 || len(res) != 1 || res[0].Sort == nil {
+	if !ok || len(call.Args) != 0 || len(res) != 1 || res[0].Sort == nil {
 		return
 	}
-	se, ok := ast.Unparen(call.Fun).(*ast.SelectorExpr)
-	if !ok {
+	se, isSel := ast.Unparen(call.Fun).(*ast.SelectorExpr)
+	if o.IsField() != isSel {
 		return
 	}
 	for _, kv := range strings.Fields(pv) {
@@ -266,8 +266,12 @@ func (fv *FuncVerifier) funcValueView(o *types.Var, call *ast.CallExpr, res []Te
 		if ssp == nil || sfd == nil || ssp.Kind != SKSpecFunc || ssp.Body != "" {
 			reject("pragma func_value_view: %s is not an uninterpreted specification function", key)
 		}
-		recv := fv.eval(se.X, st)
-		view := fv.pureApp(sfd.fn, ssp, []Term{recv}, st, call.Pos())
+		// a field x.F(): SpecFn(x); a local function variable f(): the nullary SpecFn()
+		var vargs []Term
+		if isSel {
+			vargs = []Term{fv.eval(se.X, st)}
+		}
+		view := fv.pureApp(sfd.fn, ssp, vargs, st, call.Pos())
 		if len(view) != 1 || view[0].Sort == nil || view[0].Sort.Name != res[0].Sort.Name {
 			reject("pragma func_value_view: %s does not have the result type of %s", key, o.Name())
 		}
